@@ -350,6 +350,7 @@ func (server *Server) sendResponse(sending *sync.Mutex, req *Request, reply any,
 	}
 	resp.Seq = req.Seq
 	sending.Lock()
+	verifRespond(codec, req)
 	err := codec.WriteResponse(resp, reply)
 	if debugLog && err != nil {
 		log.Println("rpc: writing response:", err)
@@ -374,6 +375,7 @@ func (s *service) call(server *Server, sending *sync.Mutex, wg *sync.WaitGroup, 
 	mtype.Unlock()
 	function := mtype.method.Func
 	// Invoke the method, providing a new value for the reply.
+	verifTok := verifCommitBegin()
 	returnValues := function.Call([]reflect.Value{s.rcvr, argv, replyv})
 	// The return value for the method is an error.
 	errInter := returnValues[0].Interface()
@@ -381,6 +383,7 @@ func (s *service) call(server *Server, sending *sync.Mutex, wg *sync.WaitGroup, 
 	if errInter != nil {
 		errmsg = errInter.(error).Error()
 	}
+	verifCommitEnd(verifTok, codec, req, replyv.Interface(), errmsg)
 	server.sendResponse(sending, req, replyv.Interface(), codec, errmsg)
 	server.freeRequest(req)
 }
@@ -446,6 +449,7 @@ func (server *Server) ServeConn(conn io.ReadWriteCloser) {
 		enc:    gob.NewEncoder(buf),
 		encBuf: buf,
 	}
+	verifServe(srv, conn)
 	server.ServeCodec(srv)
 }
 
@@ -470,6 +474,7 @@ func (server *Server) ServeCodec(codec ServerCodec) {
 			}
 			continue
 		}
+		verifRead(codec, req, argv)
 		wg.Add(1)
 		go service.call(server, sending, wg, mtype, req, argv, replyv, codec)
 	}
